@@ -6,11 +6,10 @@ export GOFLAGS=-mod=mod GOPROXY=off GOSUMDB=off GOTOOLCHAIN=local
 mkdir -p .bin .logs evidence replays
 cd harness
 rc=0
+go1.26 build -tags verif ./... || rc=1
+go1.26 build -tags verif -race github.com/redis/rueidis ./fakeredis/... ./mon/... ./resp/... ./drv/... 2>/dev/null
 for p in props/*/; do
   p=$(basename $p)
   go1.26 test -tags verif -vet=off -c -o ../.bin/$p.test ./props/$p || rc=1
-done
-for p in core; do
-  go1.26 test -tags verif -race -vet=off -c -o ../.bin/$p-race.test ./props/$p || rc=1
 done
 exit $rc
